@@ -287,6 +287,29 @@ def run_inner(pid, tier, seed):
             coverage["states"] += jr["coverage"]["states"]
             coverage["transitions"] += jr["coverage"]["transitions"]
             assumptions_extra = jr["assumptions"]
+        if pid == "C05":
+            # "never overbooks" on single decisions of the real scheduler, including amounts so large that a 32-bit float cannot
+            # tell "fits" from "does not fit" (hqv sched --tier big) - judged by WithinCapacity of spec/Sched.tla
+            import sched_engine
+            seen_sig = set()
+            n_dec = 0
+            for sd, flag, n in ((7, "big", 80), (8, "quick", 3000)):
+                trace, st = sched_engine.gen((work, 9000 + sd + seed, flag, n))
+                n_dec += st["instances"]
+                lines = None
+                for v in sched_engine.validate((work, trace)):
+                    if not v["p"].startswith("C05_"):
+                        continue
+                    if lines is None:
+                        lines = open(trace).read().splitlines()
+                    d = json.loads(lines[v["line"] - 1])
+                    sig = f"{v['p']}:{'large-amounts' if flag == 'big' else 'instance=' + d['id']}"
+                    if sig in seen_sig:
+                        continue
+                    seen_sig.add(sig)
+                    violations.append({"formula": v["p"], "signature": sig, "replay": {"engine": "sched", "instance": d},
+                                       "detail": json.dumps({k: d[k] for k in ("workers", "tasks", "assigned")})[:400]})
+            coverage["single_decisions_of_the_real_scheduler_checked_for_capacity"] = n_dec
         return {"level": "model_checking", "coverage": coverage, "violations": violations,
                 "assumptions": assumptions_extra + ["fake task launcher: a task ends only by harness choice or by honouring its stop signal",
                                 "infrastructure messages (NewWorker/LostWorker/NewResourceRequest) are delivered eagerly",
